@@ -124,7 +124,19 @@ class NumberedObjectCollection(ABC):
             raise TypeError("The index for popping must be an int")
         obj = self._objects.pop(pos)
         self.__num_cache.pop(obj.number, None)
+        self.__evict(obj)
         return obj
+
+    def __evict(self, obj):
+        """
+        Removes every number cache entry that still points at ``obj``.
+
+        An object that was renumbered is cached under its old number too;
+        once it leaves the collection no entry may keep pointing at it.
+        """
+        stale = [num for num, cached in self.__num_cache.items() if cached is obj]
+        for num in stale:
+            del self.__num_cache[num]
 
     def clear(self):
         """
@@ -181,6 +193,7 @@ class NumberedObjectCollection(ABC):
         """
         self.__num_cache.pop(delete.number, None)
         self._objects.remove(delete)
+        self.__evict(delete)
 
     def __iter__(self):
         self._iter = self._objects.__iter__()
@@ -342,6 +355,7 @@ class NumberedObjectCollection(ABC):
         self.__num_cache.pop(obj.number, None)
         idx = self._objects.index(obj)
         del self._objects[idx]
+        self.__evict(obj)
 
     def __setitem__(self, key, newvalue):
         if not isinstance(key, int):
